@@ -172,6 +172,52 @@ class CFG:
     def users(self, regname):
         return self.uses().get(regname, [])
 
+    def live_in(self):
+        """block name -> frozenset of registers live on entry (phi operands count as live-out of the predecessor)"""
+        if getattr(self, "_live", None) is not None:
+            return self._live
+        fn = self.fn
+        use = {}
+        defs = {}
+        phi_uses = {}   # pred block name -> regs used by phis in successors (from that pred)
+        for b in self.blocks:
+            u, d = set(), set()
+            for i in b.instrs:
+                if i.op == "phi":
+                    for v, lab in i.x["incoming"]:
+                        for r in _regs(v):
+                            phi_uses.setdefault(lab, set()).add(r)
+                    d.add(i.res)
+                    continue
+                ops = list(i.ops)
+                c = i.x.get("callee")
+                if c is not None:
+                    ops.append(c)
+                for o in ops:
+                    for r in _regs(o):
+                        if r not in d:
+                            u.add(r)
+                if i.res is not None:
+                    d.add(i.res)
+            use[b.name], defs[b.name] = u, d
+        live_in = {b.name: set(use[b.name]) for b in self.blocks}
+        live_out = {b.name: set() for b in self.blocks}
+        changed = True
+        while changed:
+            changed = False
+            for b in reversed(self.blocks):
+                out = set(phi_uses.get(b.name, ()))
+                for s_ in b.succs:
+                    out |= live_in[s_.name]
+                if out != live_out[b.name]:
+                    live_out[b.name] = out
+                new_in = use[b.name] | (out - defs[b.name])
+                if new_in != live_in[b.name]:
+                    live_in[b.name] = new_in
+                    changed = True
+        self._live = {k: frozenset(v) for k, v in live_in.items()}
+        return self._live
+
     def back_edges(self):
         """edges (a, b) where b dominates a"""
         out = []
